@@ -69,7 +69,7 @@ class ConstFlow(NodeElementComponent):
 
         loads = net[cls.table_name()]
 
-        is_loads = loads.in_service.values
+        is_loads = loads.in_service.values.astype(bool)  # a 0 / 1 column must act as a mask, not as positions
         fj, tj = get_lookup(net, "node", "from_to")[cls.get_connected_node_type().table_name()]
         junct_pit = net["_pit"]["node"][fj:tj, :]
         nodes_connected_hyd = get_lookup(net, "node", "active_hydraulics")[fj:tj]
